@@ -39,7 +39,9 @@ class C11(object):
             "statistics) interleaved with changes of its probabilities through the public interface -- d[o] = p on "
             "stored and unstored outcomes, d.pmf[i] = p, d.pmf[:] = v, d[o] = p + normalize(), del d[o] + normalize(), "
             "make_dense / make_sparse, copy, set_base round trip, points of simplex_grid(using=d, inplace=True) -- every "
-            "query judged against the definitions on the table the history specifies. Source distributions in 6 bases "
+            "query judged against the definitions on the table the history specifies; the object of the history is held "
+            "linear or, half the time, re-based in place to a log base (2, e, 10, 3.5, 0.5) right after construction, "
+            "every write then storing the logarithm and every query asked of that very object. Source distributions in 6 bases "
             "where the constructor supports them. Non-trivial = the "
             "result merges at least two source outcomes or has >= 3 outcomes (stats_seq: a query after a change of a "
             "table with >= 2 positive outcomes). Once per run whatever the seed (gen_sweep): each of the 12 operators and "
@@ -324,7 +326,11 @@ class C11(object):
                 'trim': sparse and rng.random() < 0.7, 'steps': steps,
                 # the statistics are also asked of a copy of the object held as log-probabilities ("numeric distributions",
                 # whatever the base)
-                'logbase': rng.choice([None, 2, 2, 'e', 10, 3.5, 0.5, 0.5])}
+                'logbase': rng.choice([None, 2, 2, 'e', 10, 3.5, 0.5, 0.5]),
+                # the object of the history may ITSELF be held as log-probabilities: it is re-based in place right after
+                # construction, every later write stores the logarithm of the new probability, and the statistics are
+                # asked of that very object before and after each change
+                'hold': rng.choice([None, None, 2, 2, 'e', 10, 3.5, 0.5])}
 
     def shrink(self, case):
         if case.get('kind') != 'stats_seq':
@@ -990,6 +996,13 @@ class C11(object):
         T.update({o: Fraction(p) for o, p in zip(outs, case['pmf'])})
         r.features += ['joint=%s' % joint, 'n=%d' % n, 'sparse=%s' % case['sparse'], 'steps=%d' % len(case['steps'])]
         tol = lambda g, w: abs(g - w) <= 1e-12 + 1e-9 * abs(w)
+        hold = case.get('hold')
+        if hold is not None:
+            d.set_base(hold)
+            r.features.append('held-in-log-base=%s' % hold)
+        # the float that stores the exact probability p in the object (its logarithm when the object is held in a log base)
+        enc = (lambda p: float(p)) if hold is None else (lambda p: gen.log_of(Fraction(p), hold))
+        dec = (lambda v: float(v)) if hold is None else (lambda v: gen.lin_of(v, hold))
         state = {'d': d, 'T': T, 'changed': [], 'exact': True}
 
         def settable(os_):
@@ -1004,13 +1017,14 @@ class C11(object):
                     if TT[o] != 0:
                         return 'P(%s) should be %s but the outcome left the sample space' % (o, TT[o])
                     continue
-                v = float(dd[o])
+                v = dec(dd[o])
                 if not tol(v, float(TT[o])):
                     return 'P(%s) reads %r, the history specifies %s' % (o, v, TT[o])
                 den = TT[o].denominator
                 if v != float(TT[o]) or den & (den - 1) or den > 2 ** 30:
                     exact = False
-            state['exact'] = exact      # every probability is a dyadic stored without rounding: float sums are exact
+            # every probability is a dyadic stored without rounding: float sums are exact (never assumed of logarithms)
+            state['exact'] = exact and hold is None
             return None
 
         def query(i, names, k, label):
@@ -1023,6 +1037,8 @@ class C11(object):
             if state['changed'] and len(positive) >= 2:
                 r.nontrivial = True
                 r.features.append('query-after-change')
+                if hold is not None:
+                    r.features.append('query-after-change-of-log-object' + ('-queried-before' if state.get('asked') else ''))
             refs = []
             for c in range(n):
                 mg = {}
@@ -1053,7 +1069,7 @@ class C11(object):
                                 r.mismatch = '%s: mode[%d] impl %s model %s' % (where_, c, gm, ref['model']['modes'])
                             if gm != [float(x) for x in ref['modes']]:
                                 r.oracle_fail = '%s: mode[%d] = %s, outcomes of maximal probability are %s; table %s' % (
-                                    where, c, gm, [str(x) for x in ref['modes']], tab)
+                                    where_, c, gm, [str(x) for x in ref['modes']], tab)
                                 return False
                         continue
                     if name == 'median':
@@ -1104,8 +1120,9 @@ class C11(object):
                                 where_, name, '' if name in ('mean', 'standard_deviation') else '(k=%d)' % k, c, got[c], want, tab)
                             return False
                 return True
-            if not ask(dd, state['exact'], ''):
+            if not ask(dd, state['exact'], '' if hold is None else ' [object held in log base %s]' % hold):
                 return False
+            state['asked'] = True
             lb = case.get('logbase')
             if lb is not None:
                 # the same statistics of the same measure held as log-probabilities (float conversions: ties and the
@@ -1134,13 +1151,13 @@ class C11(object):
                 if via == 'setitem':
                     for o in space:
                         if new[o] != TT[o]:
-                            dd[o] = float(new[o])
+                            dd[o] = enc(new[o])
                 else:
                     stored = set(dd.outcomes)
                     for o in space:
                         if o not in stored and new[o] != 0:
-                            dd[o] = float(new[o])
-                    vec = [float(new[o]) for o in dd.outcomes]
+                            dd[o] = enc(new[o])
+                    vec = [enc(new[o]) for o in dd.outcomes]
                     if via == 'pmf':
                         for j, v in enumerate(vec):
                             dd.pmf[j] = v
@@ -1152,7 +1169,7 @@ class C11(object):
                 if not settable([o]):
                     r.features.append('step-skipped')
                     continue
-                dd[o] = float(pnew)
+                dd[o] = enc(pnew)
                 dd.normalize()
                 TT[o] = pnew
                 tot = sum(TT.values())
@@ -1175,10 +1192,11 @@ class C11(object):
                 state['d'] = dd.copy()
             elif op == 'rebase':
                 dd.set_base(step['base'])
-                dd.set_base('linear')
+                dd.set_base('linear' if hold is None else hold)
             elif op == 'grid':
                 length, sub = len(dd.pmf), step['sub']
-                if length > 9:
+                if length > 9 or hold is not None:
+                    # (simplex_grid writes linear probabilities into the pmf: not a use of a log-base object)
                     r.features.append('step-skipped')
                     continue
                 label = 'simplex_grid(%d, %d, using=d, inplace=True)' % (length, sub)
